@@ -47,5 +47,4 @@ ASSUME Emit([universe |-> U])
 Reassembles == hist = <<>> => ReassembleLaw(T, d)
 \* every accepted datagram selects the template the header parser of LLUDPFrame finds
 Selected == hist = <<>> => HeaderFor(T, d)
-\* vacuity guards (evaluated by hand with -coverage / by the harness on the exported rows)
 =============================================================================
